@@ -15,7 +15,15 @@ STUB_ENG = STUB_NET + ["application (harness handler tasks)", "message contents 
 REAL_CONN = ["ouroboros.Connection (connection.go)", "muxer", "protocol engine", "handshake and all mini-protocol clients/servers the connection starts", "message codecs"]
 STUB_CONN = STUB_NET + ["remote peer (scripted raw-segment peer built from the specification automata and sample messages)", "application callbacks"]
 
+CS_RULE = "one evaluation = one simulated run of a real chain-sync client (NtN or NtC, pipeline limit from {0,1,2,3,7,10,50,100}, parsed or raw callbacks, slow callbacks) syncing from a real server Connection whose RequestNextFunc plays a model history of 3-42 roll-forwards (real blocks of 7 eras), roll-backwards and await-replies, optionally cancelled by ErrStopSyncProcess and followed by Client.Stop; distinct = distinct schedule hash; non-trivial = more than one request was outstanding at some callback (pipelining observed) or a clean stop was evaluated"
+
 PROPS = {
+ "C21": P([("chainsync", 1)], 800, 30000, CS_RULE, ["cs.pipelined", "cs.clean-stop"], real=REAL_CONN + ["ledger block/header decoding"], stubs=STUB_NET + ["application (model chain behind the server callbacks, recording client callbacks)"],
+          assumptions=["a configured pipeline limit of 0 is treated as 'unset' (the library maps it to the default 75)"], budget=(300, 2400)),
+ "C22": P([("chainsync", 1)], 800, 30000, CS_RULE + "; C22 checks, per roll-forward callback, block type and bytes (NtC) or header-era-to-block-type and header hash = block hash (NtN, Shelley and later)",
+          ["cs.block-shelley", "cs.block-conway", "cs.block-byron"], expect=["cs.block-byron", "cs.block-shelley", "cs.block-allegra", "cs.block-mary", "cs.block-alonzo", "cs.block-babbage", "cs.block-conway"],
+          real=REAL_CONN + ["ledger block/header decoding"], stubs=STUB_NET + ["application"],
+          assumptions=["input diversity is the repository's real blocks of seven eras with varied tips; the simulator contributes the wire path (multi-segment blocks, pipelining, fragmentation), not input generation (DESIGN 8/C22)"], budget=(300, 2400)),
  "C15": P([("advcalls", 1)], 1600, 60000,
           "one evaluation = one simulated run of a real Connection (NtN client, NtC client or NtN server) whose blocking API call (19 call sequences over chain-sync, block-fetch, local-state-query, local-tx-monitor, local-tx-submission, peer-sharing, tx-submission) is answered by a raw peer with a right reply, wrong-kind reply, surplus reply, malformed bytes, truncated segment, silence or abrupt close; then the connection is ended by the peer, by Close, or both, and 4 more simulated hours pass; distinct = distinct schedule hash; non-trivial = the responder deviated (any behaviour other than 'right')",
           ["advcalls.behaviour.wrong-kind", "advcalls.behaviour.surplus", "advcalls.behaviour.malformed", "advcalls.behaviour.truncated", "advcalls.behaviour.silence", "advcalls.behaviour.close"],
